@@ -7,6 +7,7 @@ import (
 	"time"
 
 	"github.com/karagenc/socket.io-go/internal/sync"
+	"github.com/karagenc/socket.io-go/internal/vhook"
 
 	_webtransport "github.com/quic-go/webtransport-go"
 	_websocket "nhooyr.io/websocket"
@@ -143,6 +144,7 @@ func (s *clientSocket) handleTimeout() {
 			s.debug.Log("handleTimeout", "ping received")
 		case <-time.After(timeout):
 			s.debug.Log("handleTimeout", "timed out")
+			vhook.Event("eio.c.pingtimeout", "o", s, "t", time.Now())
 			s.close(ReasonPingTimeout, nil)
 			return
 		case <-s.closeChan:
@@ -271,11 +273,13 @@ func (s *clientSocket) finishUpgradeTo(t ClientTransport, c *transport.Callbacks
 
 	c.Set(s.onPacket, s.onTransportClose)
 
+	vhook.Yield("eio.c.upgrade.beforeSwap", s)
 	s.transportMu.Lock()
 	defer s.transportMu.Unlock()
 
 	old := s.transport
 	s.transport = t
+	vhook.Event("eio.c.swap", "o", s, "to", t.Name())
 
 	old.Discard()
 
@@ -295,6 +299,7 @@ func findTransport(transports []string, name string) bool {
 }
 
 func (s *clientSocket) onPacket(packets ...*parser.Packet) {
+	vhook.Event("eio.c.recv", "o", s, "pk", packets)
 	s.callbacks.OnPacket(packets...)
 	for _, packet := range packets {
 		s.handlePacket(packet)
@@ -304,6 +309,7 @@ func (s *clientSocket) onPacket(packets ...*parser.Packet) {
 func (s *clientSocket) handlePacket(packet *parser.Packet) {
 	switch packet.Type {
 	case parser.PacketTypePing:
+		vhook.Event("eio.c.ping", "o", s, "t", time.Now())
 		select {
 		case s.pingChan <- struct{}{}:
 		default:
@@ -363,6 +369,7 @@ func (s *clientSocket) TransportName() string {
 func (s *clientSocket) Send(packets ...*parser.Packet) {
 	s.transportMu.RLock()
 	defer s.transportMu.RUnlock()
+	vhook.Event("eio.c.send", "o", s, "tr", s.transport.Name(), "pk", packets)
 	s.writeWritablePackets(packets...)
 }
 
@@ -403,6 +410,7 @@ func (s *clientSocket) close(reason Reason, err error) {
 
 	s.closeOnce.Do(func() {
 		s.debug.Log("Going to close the socket. It is not already closed. Reason", reason)
+		vhook.Event("eio.c.close", "o", s, "reason", string(reason), "t", time.Now())
 		close(s.closeChan)
 		defer s.callbacks.OnClose(reason, err)
 
